@@ -1,8 +1,24 @@
+import DimodModel.Vars
 import DimodModel.Bqm
+import Generated.AbcSubst
 
-/-! Feasibility prototype (scratch): executable model of `Expression` / `Constraint` /
-    `ConstrainedQuadraticModel` (expression.h, constrained_quadratic_model.h, cyconstrained.pyx,
-    constrained.py), enough for add/remove/fix/flip/change_vartype histories. -/
+/-! Executable model of `Expression` / `Constraint` / `ConstrainedQuadraticModel`
+    (`expression.h`, `constraint.h`, `constrained_quadratic_model.h`, `cyconstrained.pyx`,
+    `cyexpression.pyx`, `constrained.py`) — property C05 (and the state C08/C18 observe).
+
+    * `QB`    : `abc::QuadraticModelBase` over *local* indices (linear vector, sorted symmetric
+                neighbourhoods, offset);
+    * `Expr`  : `Expression` = `QB` + `variables_` (`vars`, global index of each local variable)
+                + `indices_` (`idx`, the hash map global → local, kept explicitly and updated
+                exactly as the three loops of `reindex_variables` do);
+    * `Cons`  : `Constraint` = `Expr` + sense, rhs, weight, penalty, discrete marker;
+    * `Cqm`   : `varinfo_` (three parallel lists), objective, constraints, and the two Python
+                label lists (`variables`, `constraint_labels`; their own sparse representation
+                is property C13's business, here they are the lists C13 proves them to be).
+
+    Every mutator returns the new state *next to* the outcome (`none` = returned normally,
+    `some c` = raised an exception of class `c`), so "state after a call that raised" exists.
+    Core Lean only. -/
 
 inductive VT4 | binary | spin | integer | real
   deriving DecidableEq, Repr
@@ -17,16 +33,17 @@ structure QB where
   off : Rat := 0
 
 structure Expr where
-  vars : List Nat := []      -- `variables_`: global index of each local variable
+  vars : List Nat := []          -- `variables_`
+  idx : AMap Nat Nat := []       -- `indices_`
   qb : QB := {}
 
 structure Cons where
   e : Expr := {}
   sense : Sense := .eq
   rhs : Rat := 0
-  weight : Option Rat := none   -- none = hard
+  weight : Option Rat := none    -- none = +inf = hard
   quadPenalty : Bool := false
-  discrete : Bool := false
+  discrete : Bool := false       -- `marked_discrete_`
 
 structure Cqm where
   vt : List VT4 := []
@@ -37,186 +54,782 @@ structure Cqm where
   labels : List Label := []
   clabels : List Label := []
 
+namespace VT4
+/-- `vartype_limits<double, …>` -/
+def maxInt : Rat := 9007199254740991            -- 2^53 - 1
+def maxReal : Rat := 1000000000000000019884624838656   -- the double nearest 1e30
+def min : VT4 → Rat
+  | .binary => 0 | .spin => -1 | .integer => -maxInt | .real => -maxReal
+def max : VT4 → Rat
+  | .binary => 1 | .spin => 1 | .integer => maxInt | .real => maxReal
+def defaultMin : VT4 → Rat
+  | .binary => 0 | .spin => -1 | .integer => 0 | .real => 0
+def defaultMax : VT4 → Rat := max
+end VT4
+
 namespace QB
+
 def n (q : QB) : Nat := q.lin.length
+
+/-- `add_variable()` -/
 def addVar (q : QB) : QB := { q with lin := q.lin ++ [0], adj := q.adj ++ [[]] }
+
+/-- `asymmetric_quadratic_ref(u, v) (+)= b` -/
 def asym (q : QB) (u v : Nat) (b : Rat) (set : Bool) : QB :=
   { q with adj := Bqm.modifyAt q.adj u (fun nb => Bqm.nbhAdd nb v b set) }
-/-- `abc::add_quadratic` with the vartype of `u` (local) supplied -/
+
+def addLinear (q : QB) (u : Nat) (b : Rat) : QB := { q with lin := Bqm.modifyAt q.lin u (· + b) }
+def setLinear (q : QB) (u : Nat) (b : Rat) : QB := { q with lin := Bqm.modifyAt q.lin u (fun _ => b) }
+
+/-- `abc::add_quadratic(u, v, b)` with the vartype of `u` (local) supplied -/
 def addQuadratic (q : QB) (vtu : VT4) (u v : Nat) (b : Rat) : QB :=
   if u = v then
     match vtu with
-    | .binary => { q with lin := Bqm.modifyAt q.lin u (· + b) }
+    | .binary => q.addLinear u b
     | .spin => { q with off := q.off + b }
     | _ => q.asym u u b false
   else (q.asym u v b false).asym v u b false
+
+/-- `abc::add_quadratic_back(u, v, b)`: append without searching -/
+def addQuadraticBack (q : QB) (vtu : VT4) (u v : Nat) (b : Rat) : QB :=
+  if u = v then
+    match vtu with
+    | .binary => q.addLinear u b
+    | .spin => { q with off := q.off + b }
+    | _ => { q with adj := Bqm.modifyAt q.adj u (· ++ [(v, b)]) }
+  else { q with adj := Bqm.modifyAt (Bqm.modifyAt q.adj u (· ++ [(v, b)])) v (· ++ [(u, b)]) }
+
+/-- `abc::quadratic(u, v)` on one neighbourhood: the bias stored for `v`, 0 if there is none -/
+def nbhCoef (nb : List (Nat × Rat)) (v : Nat) : Rat :=
+  match nb with
+  | [] => 0
+  | (w, c) :: t => if w = v then c else nbhCoef t v
+
+def nbhHas (nb : List (Nat × Rat)) (v : Nat) : Bool := nb.any (fun p => p.1 = v)
+def nbhDrop (nb : List (Nat × Rat)) (v : Nat) : List (Nat × Rat) := nb.filter (fun p => p.1 ≠ v)
+
+/-- `abc::remove_interaction(u, v)`; the flag is the returned bool -/
+def removeInteraction (q : QB) (u v : Nat) : QB × Bool :=
+  if nbhHas (q.adj.getD u []) v then
+    ({ q with adj := Bqm.modifyAt (Bqm.modifyAt q.adj u (nbhDrop · v)) v (nbhDrop · u) }, true)
+  else (q, false)
+
+/-- one neighbourhood after `remove_variable(vi)`: entry `vi` dropped, larger indices decremented -/
+def shiftNbh (vi : Nat) (nb : List (Nat × Rat)) : List (Nat × Rat) :=
+  (nb.filter (fun p => p.1 ≠ vi)).map (fun p => if p.1 > vi then (p.1 - 1, p.2) else p)
+
+/-- `abc::remove_variable(vi)` -/
 def removeVar (q : QB) (vi : Nat) : QB :=
-  let fix (nb : List (Nat × Rat)) : List (Nat × Rat) :=
-    (nb.filter (fun p => p.1 ≠ vi)).map (fun p => if p.1 > vi then (p.1 - 1, p.2) else p)
-  { q with lin := Bqm.eraseIdx q.lin vi, adj := (Bqm.eraseIdx q.adj vi).map fix }
-/-- `abc::substitute_variable(v, m, c)` exactly as coded (self-loop handled as the code does) -/
+  { q with lin := Bqm.eraseIdx q.lin vi, adj := (Bqm.eraseIdx q.adj vi).map (shiftNbh vi) }
+
+def scaleEntry (nb : List (Nat × Rat)) (w : Nat) (m : Rat) : List (Nat × Rat) :=
+  nb.map fun e => if e.1 = w then (e.1, e.2 * m) else e
+
+/-- body of the loop of `abc::substitute_variable(v, m, c)` for one term `p` of `adj[v]`.
+    `patched` = the loop starts with the `term.v == v` branch (repair of D4). -/
+def substStep (patched : Bool) (v : Nat) (m c : Rat) (q : QB) (p : Nat × Rat) : QB :=
+  if patched && p.1 = v then
+    { q with off := q.off + p.2 * c * c,
+             lin := Bqm.modifyAt q.lin v (· + 2 * p.2 * m * c),
+             adj := Bqm.modifyAt q.adj v (scaleEntry · v (m * m)) }
+  else
+    { q with lin := Bqm.modifyAt q.lin p.1 (· + p.2 * c),
+             adj := Bqm.modifyAt (Bqm.modifyAt q.adj p.1 (scaleEntry · v m)) v (scaleEntry · p.1 m) }
+
+/-- `abc::substitute_variable(v, m, c)`: x_v ↦ m·x_v + c, exactly as coded -/
+def substituteWith (patched : Bool) (q : QB) (v : Nat) (m c : Rat) : QB :=
+  (q.adj.getD v []).foldl (substStep patched v m c)
+    { q with off := q.off + q.lin.getD v 0 * c, lin := Bqm.modifyAt q.lin v (· * m) }
+
 def substitute (q : QB) (v : Nat) (m c : Rat) : QB :=
-  let lv := q.lin.getD v 0
-  let q := { q with off := q.off + lv * c, lin := Bqm.modifyAt q.lin v (· * m) }
-  let nb := q.adj.getD v []
-  -- loop over the neighbourhood of v
-  nb.foldl (fun q p =>
-    let q := { q with lin := Bqm.modifyAt q.lin p.1 (· + p.2 * c) }
-    -- asymmetric_quadratic_ref(term.v, v) *= m ; term.bias *= m
-    let scaleAt (q : QB) (a b : Nat) : QB :=
-      { q with adj := Bqm.modifyAt q.adj a (fun nb => nb.map fun e => if e.1 = b then (e.1, e.2 * m) else e) }
-    scaleAt (scaleAt q p.1 v) v p.1) q
-/-- `abc::fix_variable(v, a)` (used by the copying path's per-expression fix and by QM) -/
+  q.substituteWith Generated.AbcSubst.selfLoopBranch v m c
+
+/-- `abc::fix_variable(v, a)` -/
 def fixVar (q : QB) (v : Nat) (a : Rat) : QB :=
-  let nb := q.adj.getD v []
-  let lin := nb.foldl (fun l p => Bqm.modifyAt l p.1 (· + a * p.2)) q.lin
-  ({ q with lin := lin, off := q.off + a * lin.getD v 0 }).removeVar v
+  (fun lin => ({ q with lin := lin, off := q.off + a * lin.getD v 0 } : QB).removeVar v)
+    ((q.adj.getD v []).foldl (fun l p => Bqm.modifyAt l p.1 (· + p.2 * a)) q.lin)
+
 def scale (q : QB) (s : Rat) : QB :=
   { off := q.off * s, lin := q.lin.map (· * s), adj := q.adj.map (·.map fun p => (p.1, p.2 * s)) }
+
+def isLinear (q : QB) : Bool := q.adj.all (·.isEmpty)
+
+/-- lower-triangle terms in `cbegin_quadratic` order: (u, v, bias) with v ≤ u, local indices -/
+def lowerAt (u : Nat) (nb : List (Nat × Rat)) : List (Nat × Nat × Rat) :=
+  (nb.filter (fun p => p.1 ≤ u)).map (fun p => (u, p.1, p.2))
+
+def lowerFrom : Nat → List (List (Nat × Rat)) → List (Nat × Nat × Rat)
+  | _, [] => []
+  | u, nb :: t => lowerAt u nb ++ lowerFrom (u + 1) t
+
+def lower (q : QB) : List (Nat × Nat × Rat) := lowerFrom 0 q.adj
+
 end QB
 
 namespace Expr
-def localOf? (e : Expr) (g : Nat) : Option Nat :=
-  let rec go : List Nat → Nat → Option Nat
-    | [], _ => none
-    | x :: xs, i => if x = g then some i else go xs (i+1)
-  go e.vars 0
-/-- `enforce_variable` -/
+
+/-- `enforce_variable(g)` -/
 def enforce (e : Expr) (g : Nat) : Expr × Nat :=
-  match e.localOf? g with
+  match e.idx.get? g with
   | some i => (e, i)
-  | none => (({ vars := e.vars ++ [g], qb := e.qb.addVar } : Expr), e.vars.length)
+  | none => ({ vars := e.vars ++ [g], idx := e.idx.set g e.vars.length, qb := e.qb.addVar }, e.vars.length)
+
 def addLinear (e : Expr) (g : Nat) (b : Rat) : Expr :=
-  let (e, i) := e.enforce g
-  { e with qb := { e.qb with lin := Bqm.modifyAt e.qb.lin i (· + b) } }
+  { (e.enforce g).1 with qb := (e.enforce g).1.qb.addLinear (e.enforce g).2 b }
+
+def setLinear (e : Expr) (g : Nat) (b : Rat) : Expr :=
+  { (e.enforce g).1 with qb := (e.enforce g).1.qb.setLinear (e.enforce g).2 b }
+
+/-- `base_type::add_quadratic(enforce_variable(u), enforce_variable(v), bias)`: the two `enforce_variable`
+    calls are function arguments, whose evaluation order C++ leaves unspecified; g++ (the compiler of
+    every dimod wheel and of the build under test) evaluates them right to left, so `v` is enforced
+    first.  Only the private variable order of a term that introduces two new variables depends on it. -/
 def addQuadratic (e : Expr) (vt : List VT4) (gu gv : Nat) (b : Rat) : Expr :=
-  let (e, ui) := e.enforce gu
-  let (e, vi) := e.enforce gv
-  { e with qb := e.qb.addQuadratic (vt.getD gu .binary) ui vi b }
-/-- `reindex_variables(v)`: drop `v` if present, shift larger global indices down -/
-def reindex (e : Expr) (g : Nat) : Expr :=
-  let e := match e.localOf? g with
-    | some i => ({ vars := Bqm.eraseIdx e.vars i, qb := e.qb.removeVar i } : Expr)
-    | none => e
-  { e with vars := e.vars.map fun x => if x > g then x - 1 else x }
+  { ((e.enforce gv).1.enforce gu).1 with
+      qb := ((e.enforce gv).1.enforce gu).1.qb.addQuadratic (vt.getD gu .binary) ((e.enforce gv).1.enforce gu).2
+              (e.enforce gv).2 b }
+
+def addQuadraticBack (e : Expr) (vt : List VT4) (gu gv : Nat) (b : Rat) : Expr :=
+  { ((e.enforce gv).1.enforce gu).1 with
+      qb := ((e.enforce gv).1.enforce gu).1.qb.addQuadraticBack (vt.getD gu .binary) ((e.enforce gv).1.enforce gu).2
+              (e.enforce gv).2 b }
+
+def addOffset (e : Expr) (b : Rat) : Expr := { e with qb := { e.qb with off := e.qb.off + b } }
+
+/-- loop 1 of `reindex_variables`: `indices_.erase(u)` for every `u > v` -/
+def eraseAbove (v : Nat) (vars : List Nat) (m : AMap Nat Nat) : AMap Nat Nat :=
+  vars.foldl (fun m u => if u > v then m.erase u else m) m
+
+/-- loops 2 and 3 of `reindex_variables` on the already decremented `variables_` -/
+def setRange (vars : List Nat) (p : Nat → Bool) (is : List Nat) (m : AMap Nat Nat) : AMap Nat Nat :=
+  is.foldl (fun m i => if p (vars.getD i 0) then m.set (vars.getD i 0) i else m) m
+
+def shiftDown (v : Nat) (vars : List Nat) : List Nat := vars.map fun u => if u > v then u - 1 else u
+
+/-- the part of `reindex_variables(v)` after the optional removal; `start` as in the code -/
+def reindexTail (start : Nat) (e : Expr) (v : Nat) : Expr :=
+  { e with
+    vars := shiftDown v e.vars,
+    idx := setRange (shiftDown v e.vars) (fun _ => true)
+             (List.range' start ((shiftDown v e.vars).length - start))
+             (setRange (shiftDown v e.vars) (fun u => u ≥ v) (List.range start)
+               (eraseAbove v e.vars e.idx)) }
+
+/-- `reindex_variables(v)`: drop `v` if present, shift larger global indices down, repair `indices_` -/
+def reindex (e : Expr) (v : Nat) : Expr :=
+  match e.idx.get? v with
+  | some i => reindexTail i { vars := Bqm.eraseIdx e.vars i, idx := e.idx.erase v, qb := e.qb.removeVar i } v
+  | none => reindexTail e.vars.length e v
+
+/-- `indices_[*it] -= 1` for the variables behind the erased position -/
+def decrIdx (tail : List Nat) (m : AMap Nat Nat) : AMap Nat Nat :=
+  tail.foldl (fun m u => m.set u ((m.get? u).getD 0 - 1)) m
+
+/-- `Expression::remove_variable(g)` (the variable stays in the model) -/
+def removeVar (e : Expr) (g : Nat) : Expr :=
+  match e.idx.get? g with
+  | none => e
+  | some i => { vars := Bqm.eraseIdx e.vars i, idx := decrIdx (e.vars.drop (i + 1)) (e.idx.erase g),
+                qb := e.qb.removeVar i }
+
+def rebuildIdx (vars : List Nat) : AMap Nat Nat :=
+  (List.range vars.length).foldl (fun m i => m.set (vars.getD i 0) i) []
+
+/-- `relabel_variables(labels)` -/
+def relabel (e : Expr) (gs : List Nat) : Expr := { e with vars := gs, idx := rebuildIdx gs }
+
 def substitute (e : Expr) (g : Nat) (m c : Rat) : Expr :=
-  match e.localOf? g with
+  match e.idx.get? g with
   | some i => { e with qb := e.qb.substitute i m c }
   | none => e
+
+def removeInteraction (e : Expr) (gu gv : Nat) : Expr :=
+  match e.idx.get? gu, e.idx.get? gv with
+  | some i, some j => { e with qb := (e.qb.removeInteraction i j).1 }
+  | _, _ => e
+
+def hasVar (e : Expr) (g : Nat) : Bool := (e.idx.get? g).isSome
+
+/-- `Expression::linear(g)`: 0 for a variable the expression does not contain -/
+def linear (e : Expr) (g : Nat) : Rat :=
+  match e.idx.get? g with
+  | some i => e.qb.lin.getD i 0
+  | none => 0
+
+/-- `Expression::quadratic(g, h)`: 0 when either variable or the interaction is absent -/
+def quadratic (e : Expr) (g h : Nat) : Rat :=
+  match e.idx.get? g, e.idx.get? h with
+  | some i, some j => QB.nbhCoef (e.qb.adj.getD i []) j
+  | _, _ => 0
+
 end Expr
+
+namespace Cons
+/-- `Constraint::is_onehot` -/
+def isOnehot (vt : List VT4) (c : Cons) : Bool :=
+  c.e.qb.isLinear && decide (c.e.vars.length ≥ 2) && decide (c.sense = .eq) && decide (c.e.qb.off = 0) &&
+  c.e.vars.all (fun g => vt.getD g .spin = .binary) && c.e.qb.lin.all (· = c.rhs)
+/-- `ConstraintView.is_discrete` -/
+def isDiscrete (vt : List VT4) (c : Cons) : Bool := c.discrete && c.isOnehot vt
+def isSoft (c : Cons) : Bool := c.weight.isSome
+end Cons
 
 namespace Cqm
 
+abbrev Res := Cqm × Option ErrC
+
 def numVars (m : Cqm) : Nat := m.vt.length
 
-def idx? (m : Cqm) (v : Label) : Option Nat :=
-  let rec go : List Label → Nat → Option Nat
-    | [], _ => none
-    | l :: ls, i => if l = v then some i else go ls (i+1)
-  go m.labels 0
+def findIdx (v : Label) : List Label → Nat → Option Nat
+  | [], _ => none
+  | l :: ls, i => if l = v then some i else findIdx v ls (i + 1)
 
-def cidx? (m : Cqm) (v : Label) : Option Nat :=
-  let rec go : List Label → Nat → Option Nat
-    | [], _ => none
-    | l :: ls, i => if l = v then some i else go ls (i+1)
-  go m.clabels 0
+def idx? (m : Cqm) (v : Label) : Option Nat := findIdx v m.labels 0
+def cidx? (m : Cqm) (v : Label) : Option Nat := findIdx v m.clabels 0
 
-def addVariable (m : Cqm) (vt : VT4) (v : Label) (lb ub : Rat) : Cqm × Bool :=
-  match m.idx? v with
-  | some i =>
-    if m.vt.getD i .binary = vt && (vt = .binary || vt = .spin || (m.lb.getD i 0 = lb && m.ub.getD i 0 = ub))
-    then (m, true) else (m, false)
-  | none =>
-    ({ m with vt := m.vt ++ [vt], lb := m.lb ++ [lb], ub := m.ub ++ [ub], labels := m.labels ++ [v] }, true)
-
-/-- terms of a model handed over in its own variable order: all variables get a linear entry first,
-    then the lower-triangle quadratic terms -/
-structure ModelIn where
-  vars : List Label
-  info : List (VT4 × Rat × Rat)   -- vartype and bounds of each variable in the incoming model
-  lin : List Rat
-  quad : List (Nat × Nat × Rat)   -- indices into `vars`
-  off : Rat
-
-def buildExpr (m : Cqm) (mi : ModelIn) : Option Expr := do
-  let gs ← mi.vars.mapM m.idx?
-  -- conflicting vartypes / bounds are rejected before anything is changed
-  if (gs.zip mi.info).any (fun (g, (vt, lb, ub)) =>
-      m.vt.getD g .binary ≠ vt || m.lb.getD g 0 ≠ lb || m.ub.getD g 0 ≠ ub) then none
-  let e := (gs.zip mi.lin).foldl (fun e p => e.addLinear p.1 p.2) ({} : Expr)
-  let e := mi.quad.foldl (fun e t => e.addQuadratic m.vt (gs.getD t.1 0) (gs.getD t.2.1 0) t.2.2) e
-  pure { e with qb := { e.qb with off := e.qb.off + mi.off } }
-
-def setObjective (m : Cqm) (mi : ModelIn) : Option Cqm := do
-  let e ← m.buildExpr mi
-  pure { m with obj := e }
-
-def addConstraint (m : Cqm) (mi : ModelIn) (sense : Sense) (rhs : Rat) (label : Label)
-    (weight : Option Rat) (quadPenalty : Bool) : Option Cqm := do
-  if m.clabels.contains label then none
-  let e ← m.buildExpr mi
-  pure { m with cons := m.cons ++ [{ e, sense, rhs, weight, quadPenalty }], clabels := m.clabels ++ [label] }
+def setAt {α} (l : List α) (i : Nat) (a : α) : List α := Bqm.modifyAt l i (fun _ => a)
 
 def mapExprs (m : Cqm) (f : Expr → Expr) : Cqm :=
   { m with obj := f m.obj, cons := m.cons.map fun c => { c with e := f c.e } }
 
-/-- C++ `remove_variable(v)` + label removal (no discrete check here) -/
-def removeVarAt (m : Cqm) (g : Nat) : Cqm :=
-  let m := m.mapExprs (·.reindex g)
-  { m with vt := Bqm.eraseIdx m.vt g, lb := Bqm.eraseIdx m.lb g, ub := Bqm.eraseIdx m.ub g,
-           labels := Bqm.eraseIdx m.labels g }
+def modCons (m : Cqm) (ci : Nat) (f : Cons → Cons) : Cqm := { m with cons := Bqm.modifyAt m.cons ci f }
 
-def isOnehot (m : Cqm) (c : Cons) : Bool :=
-  c.e.qb.adj.all (·.isEmpty) && c.e.vars.length ≥ 2 && c.sense = .eq && c.e.qb.off = 0 &&
-  c.e.vars.all (fun g => m.vt.getD g .spin = .binary) && c.e.qb.lin.all (· = c.rhs)
+/-- `add_variables` once the bounds are parsed: `lbG`/`ubG` = "was given", `lbv`/`ubv` = the values -/
+def addVariableCore (m : Cqm) (vt : VT4) (v : Option Label) (lbG ubG : Bool) (lbv ubv : Rat) : Res :=
+  if lbv < vt.min then (m, some .value)
+  else if ubv > vt.max then (m, some .value)
+  else if lbv > ubv then (m, some .value)
+  else
+    match (match v with | some l => m.idx? l | none => none) with
+    | some i =>
+      if m.vt.getD i .binary ≠ vt then (m, some .value)
+      else if lbG && m.lb.getD i 0 ≠ lbv then (m, some .value)
+      else if ubG && m.ub.getD i 0 ≠ ubv then (m, some .value)
+      else (m, none)
+    | none =>
+      ({ m with vt := m.vt ++ [vt], lb := m.lb ++ [lbv], ub := m.ub ++ [ubv],
+                labels := m.labels ++ [match v with | some l => l | none => LSpec.autoLabel m.labels] }, none)
 
-def isDiscrete (m : Cqm) (c : Cons) : Bool := c.discrete && m.isOnehot c
+/-- `cyConstrainedQuadraticModel.add_variables(vartype, (v,), lower_bound, upper_bound)`;
+    `v = none` is `add_variable(vartype)` with a generated label -/
+def addVariableG (m : Cqm) (vt : VT4) (v : Option Label) (lb ub : Option Rat) : Res :=
+  m.addVariableCore vt v
+    (vt = .spin || vt = .binary || lb.isSome) (vt = .spin || vt = .binary || ub.isSome)
+    (if vt = .spin then -1 else if vt = .binary then 0 else lb.getD vt.defaultMin)
+    (if vt = .spin then 1 else if vt = .binary then 1 else ub.getD vt.defaultMax)
 
-/-- Python `remove_variable` (with the D10 repair applied: `.lhs.variables`) -/
-def removeVariable (m : Cqm) (v : Label) : Option Cqm := do
-  let g ← m.idx? v
-  if m.cons.any (fun c => m.isDiscrete c && c.e.vars.contains g) then none
-  pure (m.removeVarAt g)
+/-- kept for callers that always pass explicit bounds (returns the flag "did not raise") -/
+def addVariable (m : Cqm) (vt : VT4) (v : Label) (lb ub : Rat) : Cqm × Bool :=
+  ((m.addVariableG vt (some v) (some lb) (some ub)).1, (m.addVariableG vt (some v) (some lb) (some ub)).2.isNone)
 
-/-- in-place `fix_variable`: marker update, `substitute(v,0,a)`, `remove_variable` -/
-def fixVariable (m : Cqm) (v : Label) (a : Rat) : Option Cqm := do
-  let g ← m.idx? v
-  let m := if m.vt.getD g .spin = .binary && a ≠ 0 then
-      { m with cons := m.cons.map fun c => if c.discrete && c.e.vars.contains g then { c with discrete := false } else c }
-    else m
-  let m := m.mapExprs (·.substitute g 0 a)
-  pure (m.removeVarAt g)
+/-- a BQM/QM handed over in its own variable order -/
+structure ModelIn where
+  vars : List Label
+  info : List (VT4 × Rat × Rat)   -- vartype and bounds of each variable in the incoming model
+  lin : List Rat
+  quad : List (Nat × Nat × Rat)   -- lower-triangle terms in iteration order, indices into `vars`
+  off : Rat
 
-def flipVariable (m : Cqm) (v : Label) : Option Cqm := do
-  let g ← m.idx? v
-  match m.vt.getD g .integer with
-  | .spin => pure (m.mapExprs (·.substitute g (-1) 0))
-  | .binary =>
-    let m := m.mapExprs (·.substitute g (-1) 1)
-    -- python: discrete constraints containing v lose their mark
-    pure { m with cons := m.cons.map fun c => if m.isDiscrete c && c.e.vars.contains g then { c with discrete := false } else c }
+/-- first loop of `add_constraint_from_model` / `_set_objective_from_cyqm`: `true` iff a variable that
+    already exists has another vartype or other bounds -/
+def conflicts (m : Cqm) (mi : ModelIn) : Bool :=
+  (mi.vars.zip mi.info).any fun (v, (vt, lb, ub)) =>
+    match m.idx? v with
+    | some g => m.vt.getD g .binary ≠ vt || m.lb.getD g 0 ≠ lb || m.ub.getD g 0 ≠ ub
+    | none => false
+
+/-- second loop: variables not yet present are appended (in the incoming order) -/
+def addMissing (m : Cqm) (mi : ModelIn) : Cqm :=
+  (mi.vars.zip mi.info).foldl (fun m (v, (vt, lb, ub)) =>
+    match m.idx? v with
+    | some _ => m
+    | none => { m with vt := m.vt ++ [vt], lb := m.lb ++ [lb], ub := m.ub ++ [ub], labels := m.labels ++ [v] }) m
+
+def mapping (m : Cqm) (mi : ModelIn) : List Nat := mi.vars.map fun v => (m.idx? v).getD 0
+
+/-- copy path: `add_linear(mapping[i], …)` for every variable, then `add_quadratic` per term, then offset -/
+def buildCopy (vt : List VT4) (gs : List Nat) (mi : ModelIn) : Expr :=
+  (mi.quad.foldl (fun e t => e.addQuadratic vt (gs.getD t.1 0) (gs.getD t.2.1 0) t.2.2)
+    ((gs.zip mi.lin).foldl (fun e p => e.addLinear p.1 p.2) ({} : Expr))).addOffset mi.off
+
+/-- the incoming model's own `QuadraticModelBase` (what the move path takes over wholesale) -/
+def ModelIn.toQB (mi : ModelIn) : QB :=
+  mi.quad.foldl (fun q t =>
+      if t.1 = t.2.1 then q.asym t.1 t.1 t.2.2 false else (q.asym t.1 t.2.1 t.2.2 false).asym t.2.1 t.1 t.2.2 false)
+    { lin := mi.lin, adj := mi.lin.map fun _ => [], off := mi.off }
+
+/-- move path: base object moved, then `relabel_variables(mapping)` -/
+def buildMove (gs : List Nat) (mi : ModelIn) : Expr := ({ qb := mi.toQB } : Expr).relabel gs
+
+/-- `set_weight(weight, penalty)` on constraint `ci`; penalty: 0 linear, 1 quadratic, other = unknown string -/
+def setWeight (m : Cqm) (ci : Nat) (weight : Option Rat) (penalty : Nat) : Res :=
+  match weight with
+  | some w => if w ≤ 0 then (m, some .value) else
+    if penalty = 0 then (m.modCons ci fun c => { c with weight := some w, quadPenalty := false }, none)
+    else if penalty = 1 then
+      if ((m.cons.getD ci {}).e.vars.all fun g => m.vt.getD g .integer = .binary || m.vt.getD g .integer = .spin)
+      then (m.modCons ci fun c => { c with weight := some w, quadPenalty := true }, none)
+      else (m, some .value)
+    else (m, some .value)
+  | none =>     -- `ConstraintView.set_weight(None)`: weight = +inf
+    if penalty = 0 then (m.modCons ci fun c => { c with weight := none, quadPenalty := false }, none)
+    else if penalty = 1 then
+      if ((m.cons.getD ci {}).e.vars.all fun g => m.vt.getD g .integer = .binary || m.vt.getD g .integer = .spin)
+      then (m.modCons ci fun c => { c with weight := none, quadPenalty := true }, none)
+      else (m, some .value)
+    else (m, some .value)
+
+/-- tail shared by the `add_constraint_*` paths: push, label, optional `set_weight` (which can raise
+    *after* the constraint is in the model) -/
+def pushCons (m : Cqm) (e : Expr) (sense : Sense) (rhs : Rat) (label : Label)
+    (weight : Option Rat) (penalty : Nat) : Res :=
+  (fun (m1 : Cqm) => match weight with
+    | none => (m1, none)
+    | some w => m1.setWeight m.cons.length (some w) penalty)
+  { m with cons := m.cons ++ [{ e, sense, rhs }], clabels := m.clabels ++ [label] }
+
+/-- `add_constraint_from_model(qm, sense, rhs, label, copy, weight, penalty)` (also the comparison form) -/
+def addConstraintModel (m : Cqm) (mi : ModelIn) (sense : Sense) (rhs : Rat) (label : Label) (copy : Bool)
+    (weight : Option Rat) (penalty : Nat) : Res :=
+  if label ∈ m.clabels then (m, some .value)
+  else if m.conflicts mi then (m, some .value)
+  else
+    (fun (m1 : Cqm) =>
+      m1.pushCons (if copy then buildCopy m1.vt (m1.mapping mi) mi else buildMove (m1.mapping mi) mi)
+        sense rhs label weight penalty)
+    (m.addMissing mi)
+
+/-- kept signature of the design prototype (copy path, weight given as option, linear/quadratic flag) -/
+def addConstraint (m : Cqm) (mi : ModelIn) (sense : Sense) (rhs : Rat) (label : Label)
+    (weight : Option Rat) (quadPenalty : Bool) : Option Cqm :=
+  match m.addConstraintModel mi sense rhs label true weight (if quadPenalty then 1 else 0) with
+  | (m', none) => some m'
   | _ => none
 
-def setAt {α} (l : List α) (i : Nat) (a : α) : List α := Bqm.modifyAt l i (fun _ => a)
+/-- `set_objective(model)` -/
+def setObjectiveModel (m : Cqm) (mi : ModelIn) : Res :=
+  if m.conflicts mi then (m, some .value)
+  else
+    (fun (m1 : Cqm) => ({ m1 with obj := buildCopy m1.vt (m1.mapping mi) mi }, none))
+    (m.addMissing mi)
 
-def changeVartype (m : Cqm) (vt : VT4) (v : Label) : Option Cqm := do
-  let g ← m.idx? v
-  let src := m.vt.getD g .integer
-  if src = vt then pure m
-  else if src = .spin && vt = .binary then
-    let m := m.mapExprs (·.substitute g 2 (-1))
-    pure { m with vt := setAt m.vt g .binary, lb := setAt m.lb g 0, ub := setAt m.ub g 1 }
-  else if src = .binary && vt = .spin then
-    let m := m.mapExprs (·.substitute g (1/2) (1/2))
-    pure { m with vt := setAt m.vt g .spin, lb := setAt m.lb g (-1), ub := setAt m.ub g 1 }
-  else if src = .binary && vt = .integer then pure { m with vt := setAt m.vt g .integer }
-  else if src = .spin && vt = .integer then
-    let m := m.mapExprs (·.substitute g 2 (-1))
-    pure { m with vt := setAt m.vt g .integer, lb := setAt m.lb g 0, ub := setAt m.ub g 1 }
-  else none
+def setObjective (m : Cqm) (mi : ModelIn) : Option Cqm :=
+  match m.setObjectiveModel mi with
+  | (m', none) => some m'
+  | _ => none
 
-def removeConstraint (m : Cqm) (label : Label) : Option Cqm := do
-  let c ← m.cidx? label
-  pure { m with cons := Bqm.eraseIdx m.cons c, clabels := Bqm.eraseIdx m.clabels c }
+/-- one term of an iterable: `[]`, `[v]`, `[u, v]` + bias -/
+structure Term where
+  vs : List Label
+  bias : Rat
+
+/-- the loop shared by `set_objective(iterable)` and `add_constraint_from_iterable`: stops at the first
+    bad term and reports what was built so far -/
+def addTerms (m : Cqm) : List Term → Expr → Expr × Option ErrC
+  | [], e => (e, none)
+  | t :: ts, e =>
+    match t.vs with
+    | [] => addTerms m ts (e.addOffset t.bias)
+    | [v] => match m.idx? v with
+      | some g => addTerms m ts (e.addLinear g t.bias)
+      | none => (e, some .value)
+    | [u, v] => match m.idx? u, m.idx? v with
+      | some gu, some gv => addTerms m ts (e.addQuadratic m.vt gu gv t.bias)
+      | _, _ => (e, some .value)
+    | _ => (e, some .value)
+
+/-- `set_objective(iterable)`: the objective is cleared first, a bad term leaves the partial objective -/
+def setObjectiveTerms (m : Cqm) (ts : List Term) : Res :=
+  ({ m with obj := (m.addTerms ts {}).1 }, (m.addTerms ts {}).2)
+
+/-- `add_constraint_from_iterable`: the constraint is built completely before it is added -/
+def addConstraintTerms (m : Cqm) (ts : List Term) (sense : Sense) (rhs : Rat) (label : Label)
+    (weight : Option Rat) (penalty : Nat) : Res :=
+  if label ∈ m.clabels then (m, some .value)
+  else match m.addTerms ts {} with
+    | (e, none) => m.pushCons e sense rhs label weight penalty
+    | (_, some c) => (m, some c)
+
+/-- labels of the constraints in `CQM.discrete` (marked and one-hot) that contain global variable `g` -/
+def inDiscrete (m : Cqm) (g : Nat) : Bool :=
+  m.cons.any fun c => c.isDiscrete m.vt && c.e.hasVar g
+
+/-- `add_discrete_from_model(qm, label, copy, check_overlaps)` (also the comparison form once sense/rhs passed) -/
+def addDiscreteModel (m : Cqm) (mi : ModelIn) (label : Label) (copy checkOverlaps : Bool) : Res :=
+  if !mi.quad.isEmpty then (m, some .value)
+  else if ((mi.vars.zip mi.info).zip mi.lin).any (fun ((v, (vt, _, _)), b) =>
+      (match m.idx? v with
+       | some g => (checkOverlaps && m.inDiscrete g) || m.vt.getD g .binary ≠ .binary
+       | none => vt ≠ .binary) || b ≠ 1) then (m, some .value)
+  else match m.addConstraintModel mi .eq 1 label copy none 0 with
+    | (m1, none) => (m1.modCons m.cons.length fun c => { c with discrete := true }, none)
+    | r => r
+
+/-- `add_discrete_from_comparison(comp, label, copy, check_overlaps)` -/
+def addDiscreteComparison (m : Cqm) (mi : ModelIn) (sense : Sense) (rhs : Rat) (label : Label)
+    (copy checkOverlaps : Bool) : Res :=
+  if sense ≠ .eq then (m, some .value)
+  else if rhs ≠ 1 then (m, some .value)
+  else m.addDiscreteModel mi label copy checkOverlaps
+
+/-- the keys of `bqm.set_linear(v, 1) for v in variables`: first occurrences, in order -/
+def uniq : List Label → List Label
+  | [] => []
+  | a :: t => a :: (uniq t).filter (· ≠ a)
+
+/-- the float32 BQM `add_discrete_from_iterable` builds: every label once, bias 1 -/
+def discreteModelOf (vs : List Label) : ModelIn :=
+  { vars := uniq vs, info := (uniq vs).map fun _ => (.binary, 0, 1), lin := (uniq vs).map fun _ => 1, quad := [], off := 0 }
+
+/-- `add_discrete_from_iterable(variables, label, check_overlaps)`: a float32 BQM with `set_linear(v, 1)` per label -/
+def addDiscreteVars (m : Cqm) (vs : List Label) (label : Label) (checkOverlaps : Bool) : Res :=
+  if label ∈ m.clabels then (m, some .value)
+  else if vs.any (fun v => match m.idx? v with
+      | some g => (checkOverlaps && m.inDiscrete g) || m.vt.getD g .binary ≠ .binary
+      | none => false) then (m, some .value)
+  else
+    match m.addConstraintModel (discreteModelOf vs) .eq 1 label false none 0 with
+    | (m1, none) => (m1.modCons m.cons.length fun c => { c with discrete := true }, none)
+    | r => r
+
+/-- C++ `remove_variable(g)` + label removal -/
+def removeVarAt (m : Cqm) (g : Nat) : Cqm :=
+  { m.mapExprs (·.reindex g) with
+      vt := Bqm.eraseIdx m.vt g, lb := Bqm.eraseIdx m.lb g, ub := Bqm.eraseIdx m.ub g,
+      labels := Bqm.eraseIdx m.labels g }
+
+/-- Python `remove_variable(v)` (with `.lhs.variables`, i.e. after the repair of D10) -/
+def removeVariableR (m : Cqm) (v : Label) : Res :=
+  match m.idx? v with
+  | none => (m, some .value)
+  | some g => if m.inDiscrete g then (m, some .value) else (m.removeVarAt g, none)
+
+def removeVariable (m : Cqm) (v : Label) : Option Cqm :=
+  match m.removeVariableR v with
+  | (m', none) => some m'
+  | _ => none
+
+/-- the marker update `cyConstrainedQuadraticModel.fix_variable` *intends* (for a BINARY variable fixed to a
+    non-zero value: constraints marked discrete that contain it lose the mark).  In the code the loop body is
+    `constraint = self.cppcqm.constraint_ref(i); … constraint.mark_discrete(False)`; Cython infers a *value*
+    type for `constraint`, so the mark is cleared on a copy and the model's constraints keep theirs
+    (`is_discrete()` = marked ∧ one-hot stays meaningful).  Kept here for reference; `fixVariableR` does not
+    use it. -/
+def unmarkForFix (m : Cqm) (g : Nat) (a : Rat) : Cqm :=
+  { m with cons := m.cons.map (fun c =>
+      if m.vt.getD g .spin = .binary && a ≠ 0 && c.discrete && c.e.hasVar g then { c with discrete := false } else c) }
+
+/-- in-place `fix_variable(v, a)`: (ineffective marker update,) `substitute(v, 0, a)`, `remove_variable` -/
+def fixVariableR (m : Cqm) (v : Label) (a : Rat) : Res :=
+  match m.idx? v with
+  | none => (m, some .value)
+  | some g => ((m.mapExprs (·.substitute g 0 a)).removeVarAt g, none)
+
+def fixVariable (m : Cqm) (v : Label) (a : Rat) : Option Cqm :=
+  match m.fixVariableR v a with
+  | (m', none) => some m'
+  | _ => none
+
+/-- `fix_variables(fixed, inplace=True)`: one at a time, stops at the first that raises -/
+def fixVariablesInplace (m : Cqm) : List (Label × Rat) → Res
+  | [] => (m, none)
+  | (v, a) :: t => match m.fixVariableR v a with
+    | (m1, none) => fixVariablesInplace m1 t
+    | r => r
+
+/-- `fix_variables_expr(src, dst, old_to_new, assignments)`; `o2n g = none` means fixed -/
+def fixExpr (vtNew : List VT4) (o2n : Nat → Option Nat) (asg : Nat → Rat) (src : Expr) : Expr :=
+  (src.qb.lower.foldl (fun dst t =>
+      match o2n (src.vars.getD t.1 0), o2n (src.vars.getD t.2.1 0) with
+      | none, none => dst.addOffset (asg (src.vars.getD t.1 0) * asg (src.vars.getD t.2.1 0) * t.2.2)
+      | none, some nv => dst.addLinear nv (asg (src.vars.getD t.1 0) * t.2.2)
+      | some nu, none => dst.addLinear nu (asg (src.vars.getD t.2.1 0) * t.2.2)
+      | some nu, some nv => dst.addQuadraticBack vtNew nu nv t.2.2)
+    ((src.vars.zip src.qb.lin).foldl (fun dst p =>
+        match o2n p.1 with
+        | none => dst.addOffset (p.2 * asg p.1)
+        | some nv => dst.addLinear nv p.2)
+      (({} : Expr).addOffset src.qb.off)))
+
+def lastAssign (fixed : List (Nat × Rat)) (g : Nat) : Rat :=
+  match fixed.reverse.find? (·.1 = g) with
+  | some p => p.2
+  | none => 0
+
+/-- number of kept (non-fixed) global indices below `g` -/
+def keptBelow (isFixed : Nat → Bool) (g : Nat) : Nat := ((List.range g).filter (fun i => !isFixed i)).length
+
+/-- `fix_variables(fixed, inplace=False)`: C++ `fix_variables` into a new model, then the two relabels.
+    The receiver is unchanged; the result is the new model. -/
+def fixVariablesCopy (m : Cqm) (fixed : List (Label × Rat)) : Option Cqm :=
+  if fixed.any (fun p => (m.idx? p.1).isNone) then none else
+  (fun (fx : List (Nat × Rat)) =>
+    (fun (isFixed : Nat → Bool) (keep : List Nat) =>
+      (fun (vtNew : List VT4) (o2n : Nat → Option Nat) =>
+        some { vt := vtNew, lb := keep.map (m.lb.getD · 0), ub := keep.map (m.ub.getD · 0),
+               labels := keep.map (m.labels.getD · (.int 0)),
+               obj := fixExpr vtNew o2n (lastAssign fx) m.obj,
+               cons := m.cons.map (fun c =>
+                 (fun (e : Expr) =>
+                   ({ c with e := e, discrete := c.discrete && ({ c with e := e } : Cons).isOnehot vtNew } : Cons))
+                 (fixExpr vtNew o2n (lastAssign fx) c.e)),
+               clabels := m.clabels })
+      (keep.map (m.vt.getD · .binary)) (fun g => if isFixed g then none else some (keptBelow isFixed g)))
+    (fun g => fx.any (·.1 = g)) ((List.range m.numVars).filter (fun g => !(fx.any (·.1 = g)))))
+  (fixed.map fun p => ((m.idx? p.1).getD 0, p.2))
+
+/-- Python part of `flip_variable`: constraints in `CQM.discrete` that contain `g` lose their mark -/
+def unmarkDiscreteWith (m : Cqm) (g : Nat) : Cqm :=
+  { m with cons := m.cons.map (fun c => if c.isDiscrete m.vt && c.e.hasVar g then { c with discrete := false } else c) }
+
+def flipVariableR (m : Cqm) (v : Label) : Res :=
+  match m.idx? v with
+  | none => (m, some .value)
+  | some g =>
+    match m.vt.getD g .integer with
+    | .spin => (m.mapExprs (·.substitute g (-1) 0), none)
+    | .binary =>
+      -- C++ substitution, then Python: discrete constraints containing v lose their mark
+      ((m.mapExprs (·.substitute g (-1) 1)).unmarkDiscreteWith g, none)
+    | _ => (m, some .value)
+
+def flipVariable (m : Cqm) (v : Label) : Option Cqm :=
+  match m.flipVariableR v with
+  | (m', none) => some m'
+  | _ => none
+
+/-- C++ `change_vartype(vt, g)`; `false` = `logic_error` (TypeError in Python) -/
+def changeVartypeAt (m : Cqm) (vt : VT4) (g : Nat) : Cqm × Bool :=
+  (fun (src : VT4) =>
+    if src = vt then (m, true)
+    else if src = .spin && vt = .binary then
+      ({ m.mapExprs (·.substitute g 2 (-1)) with vt := setAt m.vt g .binary, lb := setAt m.lb g 0, ub := setAt m.ub g 1 }, true)
+    else if src = .binary && vt = .spin then
+      ({ m.mapExprs (·.substitute g (1/2) (1/2)) with vt := setAt m.vt g .spin, lb := setAt m.lb g (-1), ub := setAt m.ub g 1 }, true)
+    else if src = .spin && vt = .integer then
+      ({ m.mapExprs (·.substitute g 2 (-1)) with vt := setAt m.vt g .integer, lb := setAt m.lb g 0, ub := setAt m.ub g 1 }, true)
+    else if src = .binary && vt = .integer then ({ m with vt := setAt m.vt g .integer }, true)
+    else (m, false))
+  (m.vt.getD g .integer)
+
+def changeVartypeR (m : Cqm) (vt : VT4) (v : Label) : Res :=
+  match m.idx? v with
+  | none => (m, some .value)
+  | some g => match m.changeVartypeAt vt g with
+    | (m1, true) => (m1, none)
+    | (m1, false) => (m1, some .type)
+
+def changeVartype (m : Cqm) (vt : VT4) (v : Label) : Option Cqm :=
+  match m.changeVartypeR vt v with
+  | (m', none) => some m'
+  | _ => none
+
+/-- `spin_to_binary(inplace=True)` -/
+def spinToBinary (m : Cqm) : Cqm :=
+  (List.range m.numVars).foldl (fun m g => if m.vt.getD g .binary = .spin then (m.changeVartypeAt .binary g).1 else m) m
+
+def removeConstraintAt (m : Cqm) (c : Nat) : Cqm :=
+  { m with cons := Bqm.eraseIdx m.cons c, clabels := Bqm.eraseIdx m.clabels c }
+
+/-- variables a cascading removal takes with it: used by constraint `ci` and by nothing else -/
+def cascadeVars (m : Cqm) (ci : Nat) : List Nat :=
+  ((m.cons.getD ci {}).e.vars.filter fun g =>
+    !m.obj.hasVar g && !((List.range m.cons.length).any fun cj => cj ≠ ci && (m.cons.getD cj {}).e.hasVar g))
+
+/-- remove the labelled variables one after the other (labels are stable under removal) -/
+def removeLabels (m : Cqm) : List Label → Res
+  | [] => (m, none)
+  | v :: t => match m.removeVariableR v with
+    | (m1, none) => removeLabels m1 t
+    | r => r
+
+def removeConstraintR (m : Cqm) (label : Label) (cascade : Bool) : Res :=
+  match m.cidx? label with
+  | none => (m, some (if cascade then .index else .value))   -- `constraints[label]` KeyError / `index` ValueError
+  | some c =>
+    if cascade then (m.removeConstraintAt c).removeLabels ((m.cascadeVars c).map (m.labels.getD · (.int 0)))
+    else (m.removeConstraintAt c, none)
+
+def removeConstraint (m : Cqm) (label : Label) : Option Cqm :=
+  match m.removeConstraintR label false with
+  | (m', none) => some m'
+  | _ => none
+
+/-- `relabel_variables(mapping)` = `Variables._relabel` on the label list (C13) -/
+def relabelVariables (m : Cqm) (mp : List (Label × Label)) : Res :=
+  match LSpec.step m.labels (.relabel mp) with
+  | (l, true) => ({ m with labels := l }, none)
+  | (_, false) => (m, some .value)
+
+def relabelConstraints (m : Cqm) (mp : List (Label × Label)) : Res :=
+  match LSpec.step m.clabels (.relabel mp) with
+  | (l, true) => ({ m with clabels := l }, none)
+  | (_, false) => (m, some .value)
+
+def setLowerBound (m : Cqm) (v : Label) (lb : Rat) : Res :=
+  match m.idx? v with
+  | none => (m, some .value)
+  | some g =>
+    (fun (vt : VT4) =>
+      if vt = .binary || vt = .spin then (m, some .value)
+      else if lb < vt.min then (m, some .value)
+      else if lb > m.ub.getD g 0 then (m, some .value)
+      else if vt = .integer && lb.ceil > (m.ub.getD g 0).floor then (m, some .value)
+      else ({ m with lb := setAt m.lb g lb }, none))
+    (m.vt.getD g .binary)
+
+def setUpperBound (m : Cqm) (v : Label) (ub : Rat) : Res :=
+  match m.idx? v with
+  | none => (m, some .value)
+  | some g =>
+    (fun (vt : VT4) =>
+      if vt = .binary || vt = .spin then (m, some .value)
+      else if ub > vt.max then (m, some .value)
+      else if ub < m.lb.getD g 0 then (m, some .value)
+      else if vt = .integer && (m.lb.getD g 0).ceil > ub.floor then (m, some .value)
+      else ({ m with ub := setAt m.ub g ub }, none))
+    (m.vt.getD g .binary)
+
+/-! ### mutation through the views (`cqm.objective`, `cqm.constraints[label].lhs`); `which = none` is
+    the objective, `some label` a constraint -/
+
+def modExpr (m : Cqm) (which : Option Label) (f : Expr → Expr) : Option Cqm :=
+  match which with
+  | none => some { m with obj := f m.obj }
+  | some l => (m.cidx? l).map fun ci => m.modCons ci fun c => { c with e := f c.e }
+
+def getExpr (m : Cqm) (which : Option Label) : Option Expr :=
+  match which with
+  | none => some m.obj
+  | some l => (m.cidx? l).map fun ci => (m.cons.getD ci {}).e
+
+/-- an unknown constraint label is a `KeyError` from `cqm.constraints[label]` -/
+def ofOpt (m : Cqm) : Option Cqm → Res
+  | some m' => (m', none)
+  | none => (m, some .index)
+
+def knownView (m : Cqm) (w : Option Label) : Bool :=
+  match w with
+  | none => true
+  | some l => (m.cidx? l).isSome
+
+def viewAddLinear (m : Cqm) (w : Option Label) (v : Label) (b : Rat) : Res :=
+  if !(m.knownView w) then (m, some .index) else
+  match m.idx? v with
+  | none => (m, some .value)
+  | some g => m.ofOpt (m.modExpr w (·.addLinear g b))
+
+def viewSetLinear (m : Cqm) (w : Option Label) (v : Label) (b : Rat) : Res :=
+  if !(m.knownView w) then (m, some .index) else
+  match m.idx? v with
+  | none => (m, some .value)
+  | some g => m.ofOpt (m.modExpr w (·.setLinear g b))
+
+/-- `_cyExpression.add_quadratic(u, v, bias)` with `REAL_INTERACTIONS` off -/
+def viewAddQuadratic (m : Cqm) (w : Option Label) (u v : Label) (b : Rat) : Res :=
+  if !(m.knownView w) then (m, some .index) else
+  match m.idx? u, m.idx? v with
+  | some gu, some gv =>
+    if gu = gv && (m.vt.getD gu .integer = .spin || m.vt.getD gu .integer = .binary) then
+      -- the message is formatted with `self.variables[ui]` (the expression's own list, global index)
+      (m, some (if gu < ((m.getExpr w).getD {}).vars.length then .value else .index))
+    else if m.vt.getD gu .integer = .real then
+      (m, some (if gu < ((m.getExpr w).getD {}).vars.length then .value else .index))
+    else if m.vt.getD gv .integer = .real then
+      (m, some (if gv < ((m.getExpr w).getD {}).vars.length then .value else .index))
+    else m.ofOpt (m.modExpr w (·.addQuadratic m.vt gu gv b))
+  | _, _ => (m, some .value)
+
+def viewRemoveInteraction (m : Cqm) (w : Option Label) (u v : Label) : Res :=
+  if !(m.knownView w) then (m, some .index) else
+  match m.idx? u, m.idx? v with
+  | some gu, some gv => m.ofOpt (m.modExpr w (·.removeInteraction gu gv))
+  | _, _ => (m, some .value)
+
+def viewRemoveVariable (m : Cqm) (w : Option Label) (v : Label) : Res :=
+  if !(m.knownView w) then (m, some .index) else
+  match m.idx? v with
+  | none => (m, some .value)
+  | some g => m.ofOpt (m.modExpr w (·.removeVar g))
+
+def viewSetOffset (m : Cqm) (w : Option Label) (b : Rat) : Res :=
+  m.ofOpt (m.modExpr w fun e => { e with qb := { e.qb with off := b } })
+
+def viewMarkDiscrete (m : Cqm) (l : Label) (mark : Bool) : Res :=
+  match m.cidx? l with
+  | none => (m, some .index)
+  | some ci => (m.modCons ci fun c => { c with discrete := mark }, none)
+
+def viewSetWeight (m : Cqm) (l : Label) (weight : Option Rat) (penalty : Nat) : Res :=
+  match m.cidx? l with
+  | none => (m, some .index)
+  | some ci => m.setWeight ci weight penalty
+
+
+/-! ### histories: every public mutation as one `Op`, `step` applies it, `run` a whole history -/
+
+inductive Op
+  | addVariable (vt : VT4) (v : Option Label) (lb ub : Option Rat)
+  | setObjectiveModel (mi : ModelIn)
+  | setObjectiveTerms (ts : List Term)
+  | addConstraintModel (mi : ModelIn) (sense : Sense) (rhs : Rat) (label : Label) (copy : Bool)
+      (weight : Option Rat) (penalty : Nat)          -- also `add_constraint_from_comparison`
+  | addConstraintTerms (ts : List Term) (sense : Sense) (rhs : Rat) (label : Label) (weight : Option Rat) (penalty : Nat)
+  | addDiscreteModel (mi : ModelIn) (label : Label) (copy checkOverlaps : Bool)
+  | addDiscreteComparison (mi : ModelIn) (sense : Sense) (rhs : Rat) (label : Label) (copy checkOverlaps : Bool)
+  | addDiscreteVars (vs : List Label) (label : Label) (checkOverlaps : Bool)
+  | removeVariable (v : Label)
+  | fixVariable (v : Label) (a : Rat)
+  | fixVariables (fixed : List (Label × Rat))          -- inplace=True
+  | flipVariable (v : Label)
+  | changeVartype (vt : VT4) (v : Label)
+  | spinToBinary
+  | removeConstraint (label : Label) (cascade : Bool)
+  | relabelVariables (mp : List (Label × Label))
+  | relabelConstraints (mp : List (Label × Label))
+  | setLowerBound (v : Label) (x : Rat)
+  | setUpperBound (v : Label) (x : Rat)
+  | viewAddLinear (w : Option Label) (v : Label) (b : Rat)
+  | viewSetLinear (w : Option Label) (v : Label) (b : Rat)
+  | viewAddQuadratic (w : Option Label) (u v : Label) (b : Rat)
+  | viewRemoveInteraction (w : Option Label) (u v : Label)
+  | viewRemoveVariable (w : Option Label) (v : Label)
+  | viewSetOffset (w : Option Label) (b : Rat)
+  | viewMarkDiscrete (l : Label) (mark : Bool)
+  | viewSetWeight (l : Label) (weight : Option Rat) (penalty : Nat)
+  | deepcopy                                            -- the copy is the same value
+
+def step (m : Cqm) : Op → Res
+  | .addVariable vt v lb ub => m.addVariableG vt v lb ub
+  | .setObjectiveModel mi => m.setObjectiveModel mi
+  | .setObjectiveTerms ts => m.setObjectiveTerms ts
+  | .addConstraintModel mi sense rhs label copy weight penalty => m.addConstraintModel mi sense rhs label copy weight penalty
+  | .addConstraintTerms ts sense rhs label weight penalty => m.addConstraintTerms ts sense rhs label weight penalty
+  | .addDiscreteModel mi label copy chk => m.addDiscreteModel mi label copy chk
+  | .addDiscreteComparison mi sense rhs label copy chk => m.addDiscreteComparison mi sense rhs label copy chk
+  | .addDiscreteVars vs label chk => m.addDiscreteVars vs label chk
+  | .removeVariable v => m.removeVariableR v
+  | .fixVariable v a => m.fixVariableR v a
+  | .fixVariables fixed => m.fixVariablesInplace fixed
+  | .flipVariable v => m.flipVariableR v
+  | .changeVartype vt v => m.changeVartypeR vt v
+  | .spinToBinary => (m.spinToBinary, none)
+  | .removeConstraint label cascade => m.removeConstraintR label cascade
+  | .relabelVariables mp => m.relabelVariables mp
+  | .relabelConstraints mp => m.relabelConstraints mp
+  | .setLowerBound v x => m.setLowerBound v x
+  | .setUpperBound v x => m.setUpperBound v x
+  | .viewAddLinear w v b => m.viewAddLinear w v b
+  | .viewSetLinear w v b => m.viewSetLinear w v b
+  | .viewAddQuadratic w u v b => m.viewAddQuadratic w u v b
+  | .viewRemoveInteraction w u v => m.viewRemoveInteraction w u v
+  | .viewRemoveVariable w v => m.viewRemoveVariable w v
+  | .viewSetOffset w b => m.viewSetOffset w b
+  | .viewMarkDiscrete l mark => m.viewMarkDiscrete l mark
+  | .viewSetWeight l weight penalty => m.viewSetWeight l weight penalty
+  | .deepcopy => (m, none)
+
+/-- the model after a history (exceptions are caught by the caller, the state they leave stays) -/
+def run (m : Cqm) (ops : List Op) : Cqm := ops.foldl (fun m op => (m.step op).1) m
 
 end Cqm
